@@ -16,7 +16,7 @@ shift amounts or signed overflow: those are numerical."""
 import cfg, conc, codecrules, expandrules, witness, bounds
 from irdb import broken
 from prov import Prov, addr_key, render
-from props import c05, c06, c11, c14
+from props import c05, c06, c11, c12, c14
 
 LEVEL = 'other'
 
@@ -131,4 +131,7 @@ def run(ctx):
     c11.r4(ctx, prog, A)
     c05.run_bound_rule(ctx, prog, pfx='C08')
     c06.limits(ctx, prog)
+    c06.fast_path_reserve(ctx, prog, pfx='C08')
     expandrules.refcount_obligations(ctx, prog, 'C08')
+    # use of a block after it was handed to another thread or freed (ownership rule of C12)
+    c12._ownership(ctx, prog, A)
